@@ -400,6 +400,12 @@ def r7(ctx: Ctx) -> None:
 
 
 def _lam_ret(ctx: Ctx, q: str):
+    if "#" in q:
+        # a helper that both constructions share is defined once, before the test that tells them apart
+        base = q.split("#")[0]
+        names = {g.qualname for g in ctx.model.all_functions(include_inlined=True) if g.module.relpath == PB}
+        if q not in names and base in names and not any(n.startswith(base + "#") for n in names):
+            q = base
     f = ctx.func(PB, q)
     c = canon_function(f, ctx.model)
     if len(c) != 1 or c[0][0] != "ret":
